@@ -1,4 +1,5 @@
 pub mod gen;
+pub mod c06;
 pub mod oracle;
 pub mod oracle2;
 pub mod scenario;
@@ -64,6 +65,7 @@ impl Rig for H1Rig {
             "C02" => gen::gen_pipeline(rng, "C02"),
             "C03" => gen::gen_pipeline(rng, "C03"),
             "C04" => gen::gen_pipeline(rng, "C04"),
+            "C06" => c06::gen_c06(rng, idx),
             _ => gen::gen_c01(rng, idx),
         }
     }
@@ -74,6 +76,7 @@ impl Rig for H1Rig {
             "C02" => oracle::check_c02(sc, &out),
             "C03" => oracle2::check_c03(sc, &out),
             "C04" => oracle2::check_c04(sc, &out),
+            "C06" => c06::check_c06(sc, &out),
             _ => vec![],
         };
         self.report(sc, out, vs)
